@@ -31,7 +31,7 @@ MANIFEST = {
             "speaks of the recording DATE; TYER/TDAT/TORY likewise need a non-zero year / month and day; years above 9999 are written with five digits and do not convert back; "
             "only text[0] of TDRC/TDOR is converted; an existing TYER/TDAT/TIME/TORY/IPLS (resp. TDRC/TDOR/TIPL) wins over the converted one; `del self[key]` of the "
             "v2.4-only list works on plain keys, so RVA2/EQU2/SIGN (HashKey with a suffix) stay in a v2.3 tag; ID3.save(v2_version=3) does not call update_to_v23 itself "
-            "(documented); MakeID3v1 raises IndexError for TIT2/TPE1/TALB/TRCK with an empty text list. Modelled, not verified: see trusted base. Reloading (bytes -> frames) is "
+            "(documented); MakeID3v1 treats TIT2/TPE1/TALB/TRCK with an empty text list as absent (empty field / track 0; it used to raise IndexError -- fixed, regression case kept). Modelled, not verified: see trusted base. Reloading (bytes -> frames) is "
             "covered by C12's theorems and, here, by the direct oracle. Validity conditions of the reload oracle: values contain no U+0000 and are non-empty, text is "
             "encodable in the declared encoding, time stamps are canonical.",
     "technique": "Coq proofs over a hand model (nested inductive frame type, association-list dict lemmas) + correspondence via the extracted OCaml model + direct oracle with an "
@@ -1245,6 +1245,19 @@ def direct_oracle(ctx, n_tags, n_hand):
     ctx.oracle_cases += 1
     if f.getvalue()[-128:][97:110] != b"hello comment":
         _viol(ctx, "ID3v1 block does not reflect the v2 comment", "v1-comment-not-written", {"fixed_case": "TIT2+COMM(desc='')"})
+    # regression case of the second fixed finding: text frames without values must not make the ID3v1 writer fail
+    for fid in ("TIT2", "TPE1", "TALB", "TRCK"):
+        t = I.ID3(); t.add(getattr(I, fid)(encoding=3, text=[])); t.add(I.TCON(encoding=3, text=["Rock"]))
+        f = io.BytesIO()
+        ctx.oracle_cases += 1
+        try:
+            t.save(f, v1=2)
+            blk = f.getvalue()[-128:]
+            ok = blk[:3] == b"TAG" and blk[3:93] == b"\0" * 90 and blk[126] == 0 and blk[127] == 17
+        except Exception as e:
+            ok = False
+        if not ok:
+            _viol(ctx, "saving with an ID3v1 block fails or is wrong for a text frame without values", "v1-empty-text", {"fixed_case": fid + "(text=[])"})
 
 
 # ------------------------------------------------------------------------------------------------ (V) vm_compute shard
